@@ -28,12 +28,69 @@ import (
 	"verif/internal/explore"
 	"verif/internal/minichain"
 	"verif/ref/refchain"
+	"verif/ref/refhash"
+	"verif/ref/refsig"
 	"verif/ref/reftx"
 )
 
 type OP = refchain.Outpoint
 
-var params = refchain.DefaultParams()
+var params = func() refchain.Params {
+	p := refchain.DefaultParams()
+	p.Verify = verify
+	return p
+}()
+
+// ---- pay-to-pubkey outputs with real signatures (reference signer / verifier) ----
+
+func privKey(i byte) []byte { k := make([]byte, 32); k[31] = i; k[0] = 0x11; return k }
+
+func p2pk(i byte) []byte {
+	pub := refsig.PubkeyFromPriv(privKey(i), true)
+	return append(append([]byte{byte(len(pub))}, pub...), 0xac)
+}
+
+func signP2PK(tx *reftx.Tx, idx int, key byte) {
+	d := refhash.Legacy(tx, p2pk(key), idx, 1)
+	r, s := refsig.ECDSASignRFC6979(privKey(key), d[:])
+	sig := append(refsig.SerializeDER(r, s), 0x01)
+	tx.In[idx].Script = append([]byte{byte(len(sig))}, sig...)
+}
+
+// verify: trivial scripts, plus P2PK judged with the reference digest and the
+// reference ECDSA verification.
+var verifyMemo = map[string]bool{}
+
+func verify(tx *reftx.Tx, idx int, spent []refchain.Coin, f refchain.Flags) bool {
+	pk := spent[idx].Script
+	if len(pk) == 35 && pk[0] == 33 && pk[34] == 0xac {
+		// the reference verdict is a pure function of these bytes: memoised per process
+		mk := fmt.Sprintf("%x/%d/%x/%v", tx.Serialize(true), idx, pk, f.DERSIG)
+		if v, ok := verifyMemo[mk]; ok {
+			return v
+		}
+		v := verifyP2PK(tx, idx, pk, f)
+		verifyMemo[mk] = v
+		return v
+	}
+	return refchain.Trivial(tx, idx, spent, f)
+}
+
+func verifyP2PK(tx *reftx.Tx, idx int, pk []byte, f refchain.Flags) bool {
+	{
+		ss := tx.In[idx].Script
+		if len(ss) < 2 || int(ss[0]) != len(ss)-1 {
+			return false
+		}
+		sig := ss[1:]
+		r, sv, ok := refsig.ParseDERLax(sig[:len(sig)-1])
+		if !ok || (f.DERSIG && !refsig.IsStrictDER(sig)) {
+			return false
+		}
+		d := refhash.Legacy(tx, pk, idx, uint32(sig[len(sig)-1]))
+		return refsig.ECDSAVerify(pk[1:34], r, sv, d[:])
+	}
+}
 
 func o1(v uint64) reftx.Out { return reftx.Out{Value: v, Script: []byte{0x51}} }
 
@@ -79,6 +136,13 @@ func buildPrefix0() *chainx.Prefix {
 			for i := 0; i < 4; i++ {
 				p.Named[fmt.Sprint("F", h-102, ".", i)] = OP{Tx: m.TxID(), Vout: uint32(i)}
 			}
+		case 105:
+			k := minichain.Spend([]OP{p.Cb[4]}, []reftx.Out{{Value: 10e8, Script: p2pk(1)}, {Value: 10e8, Script: p2pk(2)}, {Value: 10e8, Script: p2pk(3)}, {Value: 10e8, Script: p2pk(4)}})
+			s.Txs = append(s.Txs, k)
+			s.Fees = 10e8
+			for i := 0; i < 4; i++ {
+				p.Named[fmt.Sprint("K", i+1)] = OP{Tx: k.TxID(), Vout: uint32(i)}
+			}
 		}
 	})
 }
@@ -113,6 +177,37 @@ func scenarios() []scen {
 			t2 := grind(sp([]OP{n["F0.1"], n["F2.0"]}, []reftx.Out{bigOut(10e8, 1500), o1(10e8)}), 0x42)
 			t3 := grind(sp([]OP{n["F1.1"], {Tx: t1.TxID(), Vout: 1}}, []reftx.Out{bigOut(10e8, 1500), o1(10e8)}), 0x42)
 			return []*reftx.Block{blk(p, p.Tip, p.Height+1, 1, 0, t1, t2, t3)}
+		}},
+		{name: "S1-signatures-with-in-block-spend", qb: 2, tb: 3, horizon: 4000, events: []string{"b0"}, expect: "b0=ok", blocks: func(p *chainx.Prefix) []*reftx.Block {
+			// t1 and t2 carry real ECDSA signatures (SIGHASH_ALL commits to their outputs);
+			// t2 and t3 spend outputs created earlier in the same block while the
+			// signature checks of t1 / t2 may still be running
+			n := p.Named
+			t1 := sp([]OP{n["K1"], n["K2"]}, []reftx.Out{o1(8e8), o1(12e8)})
+			signP2PK(t1, 0, 1)
+			signP2PK(t1, 1, 2)
+			t2 := sp([]OP{n["K3"], {Tx: t1.TxID(), Vout: 1}}, []reftx.Out{o1(9e8), o1(13e8)})
+			signP2PK(t2, 0, 3)
+			t3 := sp([]OP{{Tx: t2.TxID(), Vout: 0}, {Tx: t1.TxID(), Vout: 0}}, []reftx.Out{o1(17e8)})
+			return []*reftx.Block{blk(p, p.Tip, p.Height+1, 7, 0, t1, t2, t3)}
+		}},
+		{name: "S1-bad-signature-among-valid", qb: 2, tb: 3, horizon: 4000, events: []string{"b0", "b1"}, expect: "b0=refused-connect,b1=ok", blocks: func(p *chainx.Prefix) []*reftx.Block {
+			n := p.Named
+			mk := func(bad bool) *reftx.Block {
+				t1 := sp([]OP{n["K1"], n["K2"]}, []reftx.Out{o1(8e8), o1(12e8)})
+				signP2PK(t1, 0, 1)
+				signP2PK(t1, 1, 2)
+				t2 := sp([]OP{n["K3"], n["K4"]}, []reftx.Out{o1(20e8)})
+				signP2PK(t2, 0, 3)
+				signP2PK(t2, 1, 4)
+				tag := byte(9)
+				if bad {
+					t2.In[1].Script[10] ^= 1 // corrupt the last signature of the last transaction
+					tag = 8
+				}
+				return blk(p, p.Tip, p.Height+1, tag, 0, t1, t2)
+			}
+			return []*reftx.Block{mk(true), mk(false)}
 		}},
 		{name: "S1-commit-failing-script-then-early-return", qb: 2, tb: 3, horizon: 4000, events: []string{"b0", "b1"}, expect: "b0=refused-connect,b1=ok", blocks: func(p *chainx.Prefix) []*reftx.Block {
 			n := p.Named
@@ -411,10 +506,11 @@ func main() {
 		if def.Obs != def2.Obs || len(def.Points) != len(def2.Points) {
 			ev.HarnessError("scenario %s is not deterministic under the scheduler: %q/%d vs %q/%d", sc.name, def.Obs, len(def.Points), def2.Obs, len(def2.Points))
 		}
-		if v := classify(sc, def, ""); v != nil {
-			r.Report(v.Key, v.What, v)
+		defViol := classify(sc, def, "")
+		if defViol != nil {
+			r.Report(defViol.Key, defViol.What, defViol)
 		}
-		if !strings.HasPrefix(def.Obs, sc.expect+" |") {
+		if defViol == nil && !strings.HasPrefix(def.Obs, sc.expect+" |") {
 			ev.HarnessError("scenario %s is vacuous: default schedule gives %q, expected results %q", sc.name, def.Obs, sc.expect)
 		}
 		if def.Horizon {
